@@ -879,6 +879,11 @@ def parse_template(path):
             s = "//@fn " + s[len("//@block "):]
             is_arm = True
             is_block = True
+        elif s.startswith("//@guard "):
+            # the GUARD of a match arm (`P if <expr> =>`): the expression between `if` and `=>`, as the body of a bool function
+            s = "//@fn " + s[len("//@guard "):]
+            is_arm = True
+            is_block = "guard"
         elif s.startswith("//@stmt "):
             # like //@block, but the extracted text starts at the regex match (e.g. a whole `for` statement)
             s = "//@fn " + s[len("//@stmt "):]
@@ -1181,7 +1186,27 @@ def generate(unit, template_path, canary=False, extra_fns=(), drop_hints=()):
                 # signature over the arm's bound variables (the signature is template text; the block is /repo text)
                 arm_rx, arm_sig = spec["arm"]
                 fmask = src.mask[bo:bc + 1]
-                if spec.get("block"):
+                if spec.get("block") == "guard":
+                    gh = [h for h in re.finditer(arm_rx, fmask) if re.match(r"\s*if\b", fmask[h.end():])]
+                    if len(gh) != 1:
+                        raise AnchorLost(f"{spec['file']}::{spec['name']}: guarded arm `{arm_rx}` matched {len(gh)}x")
+                    g0 = gh[0].end() + re.match(r"\s*if\b", fmask[gh[0].end():]).end()
+                    depth_, k_ = 0, g0
+                    while k_ < len(fmask) - 1:
+                        ch_ = fmask[k_]
+                        if ch_ in "([{":
+                            depth_ += 1
+                        elif ch_ in ")]}":
+                            depth_ -= 1
+                        elif depth_ <= 0 and fmask.startswith("=>", k_):
+                            break
+                        k_ += 1
+                    s0 = bo + g0
+                    body = "{ " + src.text[bo + g0:bo + k_].strip() + " }"
+                    bo, bc = bo + g0, bo + k_
+                    sig = arm_sig
+                    arm_rx = None
+                elif spec.get("block"):
                     # block-level extraction: the `{...}` block that follows the (unique) match of the regex inside the
                     # function - e.g. the body of `if !inputs.is_empty()` - wrapped in a synthesized signature
                     kth_ = None
